@@ -55,7 +55,7 @@ def model(fault, handlers, final_mode):
             if h['behaviour'] == 'raise-new':
                 exc_t = h['new_type']
             # raise-same: exc unchanged
-    final_called = final_mode in ('returns', 'raises')
+    final_called = final_mode in ('returns', 'raises', 'reconnects')
     if final_called:
         calls.append(('final', exc_t.__name__))
         if final_mode == 'raises':
@@ -76,7 +76,8 @@ def scenario(run, rng, origin, chain, final_mode, pv, hook_log):
                   'decoder': _struct.error}.get(origin) or \
         rng.choice((E0, E1, E2, F0, KeyError))
     state = {'eof': {}, 'accepted': 0}
-    may_reconnect = any(h['behaviour'] == 'reconnect' for h in chain)
+    may_reconnect = any(h['behaviour'] == 'reconnect' for h in chain) \
+        or final_mode == 'reconnects'
 
     def handler(io):
         state['accepted'] += 1
@@ -109,6 +110,7 @@ def scenario(run, rng, origin, chain, final_mode, pv, hook_log):
                     did, dp = codec.encode('play_disconnect',
                                            {'reason': '"bye"'})
                     io.send_frame(did, dp)
+                    state.setdefault('served', []).append(io.index)
         try:
             # (closure of the old connection is not judged when a handler
             # reconnects, so do not wait long for it)
@@ -123,6 +125,7 @@ def scenario(run, rng, origin, chain, final_mode, pv, hook_log):
     received = {}
     conn = None
     final_calls = []
+    reconnects = []
 
     def final_returns(exc, exc_info):
         calls.append(('final', type(exc).__name__, exc))
@@ -130,8 +133,15 @@ def scenario(run, rng, origin, chain, final_mode, pv, hook_log):
     def final_raises(exc, exc_info):
         calls.append(('final', type(exc).__name__, exc))
         raise F0('from final')
+    def final_reconnects(exc, exc_info):
+        # the auto-reconnect idiom: a *final* handler starting a new connection
+        calls.append(('final', type(exc).__name__, exc))
+        reconnects.append('final')
+        conn.disconnect()
+        conn.connect()
     final_arg = {'none': None, 'false': False, 'returns': final_returns,
-                 'raises': final_raises}[final_mode]
+                 'raises': final_raises,
+                 'reconnects': final_reconnects}[final_mode]
     exits = []
     w = {'origin': origin, 'final': final_mode, 'pv': pv,
          'fault': fault_type.__name__,
@@ -148,7 +158,6 @@ def scenario(run, rng, origin, chain, final_mode, pv, hook_log):
         conn = K('127.0.0.1', server.port, username='vfuser',
                  allowed_versions={pv}, handle_exception=final_arg,
                  handle_exit=handle_exit)
-        reconnects = []
         effective = []
         for h in chain:
             def make(h):
@@ -246,6 +255,15 @@ def scenario(run, rng, origin, chain, final_mode, pv, hook_log):
                 bad('containment/reconnect-from-handler', 'a handler started a'
                     ' new connection; exactly one more TCP connection must '
                     'appear', accepted=state['accepted'])
+            elif 1 not in state.get('served', []) or \
+                    state['eof'].get(1) is not True:
+                # the server completes the login of the new session and ends
+                # it with a play disconnect: it must get that far, i.e. the
+                # new connection was not torn down with the failed one
+                bad('containment/reconnected-session-killed', 'the connection '
+                    'started by a handler did not run to its normal end',
+                    served=state.get('served'), by=reconnects,
+                    server_errors=[e[1:] for e in server.errors][:2])
         # the same object can connect again
         before = len(exits)
         n_before = state['accepted']
@@ -310,7 +328,8 @@ def run(run):
                 'filters from an exception hierarchy incl. tuples, built-in '
                 'types and catch-all; early flags; return / raise-new / '
                 'raise-same / reconnect-from-handler) x final handler {None, '
-                'False, returning, raising}; each followed by a fresh '
+                'False, returning, raising, reconnecting}; each followed by a '
+                'fresh '
                 'connect() on the same object. Distinct = (origin, chain, '
                 'final).')
     run.assumptions = ['the status-phase EOF fallback (reactor swallows the '
@@ -327,12 +346,19 @@ def run(run):
         n = 0
         reps = 60 if thorough else 10
         for origin in ORIGINS:
-            for final_mode in ('none', 'false', 'returns', 'raises'):
+            for final_mode in ('none', 'false', 'returns', 'raises',
+                               'reconnects'):
                 for rep in range(reps):
                     n += 1
                     if not run.mine(n):
                         continue
                     chain = gen_chain(rng)
+                    if final_mode == 'reconnects':
+                        # one reconnect per failure: a second connect() would
+                        # be refused as InvalidState, which is correct
+                        for h in chain:
+                            if h['behaviour'] == 'reconnect':
+                                h['behaviour'] = 'return'
                     pv = rng.choice((757, 757, 404, 340, 578))
                     err = None
                     for attempt in range(3):
